@@ -121,9 +121,11 @@ CLAIMED = {
          'case, charset, version and checksum variant, the predicate is true on every valid address and false on mixed case / bad checksum. '
          'Substitutions: the checksum is proved GF(2)-linear and every 1- or 2-character substitution in the data part is proved rejected (1829 '
          'single-error syndromes evaluated in the kernel); 3 and 4 substitutions are checked exhaustively by the compiled driver on every run (not a proof). The leaves of bech32.py (polymod, hrp_expand, '
-         'verify/create checksum, convertbits) are re-translated on every run and proved equal to the hand model on all inputs (tier T); decode/encode and the address classes are tied by the correspondence run.',
+         'verify/create checksum, convertbits) and now the rest of it (bech32_encode, bech32_decode, decode, encode: strings as character lists, possibly-None values '
+         'as Options whose use raises TypeError) are re-translated on every run and proved equal to the hand model on all inputs (tier T), so round trip, soundness of '
+         'acceptance and rejection are theorems about the translated bech32.py; the address classes in keys.py are tied by the correspondence run.',
          NOTE_COMMON + 'partial: detection of 3-4 substituted characters rests on an exhaustive compiled computation, not on a theorem.',
-         'Lean 4 proof (hand model) + differential correspondence', '6/C11'),
+         'Lean 4 proof over translated source (all of bech32.py) + differential correspondence', '6/C11'),
  'C12': ('Kernel-checked theorems: the five locking-script templates evaluate, through the generated opcode dictionaries and the push-form tie, to the '
          'standard bytes for every 20/32-byte hash; script-hash commitments are RIPEMD160(SHA256(bytes)) / SHA256(bytes) of the exact script '
          'encoding (uses the RIPEMD-160 theorem of C20); helper output = locking script of the address from the same script. Tier T: the five '
